@@ -5,7 +5,7 @@ W = {'rect': 0.25, 'oct': 0.35, 'share': 0.1, 'lat': 0.1, 'gp': 0.2, 'abut': 0.2
 
 
 def run(rep, tier, seed):
-    relrun.run_rel(rep, 'C08', tier, seed, relprops.build_c08, W, 100 if tier == 'quick' else 2500,
+    relrun.run_rel(rep, 'C08', tier, seed, relprops.build_c08, W, 200 if tier == 'quick' else 2500,
                    'each group = 4 operations x (base, scaled by 2^k with k in {-40,3,60,random}: bit-identical; integer translation: '
                    'identical on the exact class; 2 (quick) or 7 (thorough) of the non-trivial axis symmetries: transformed region, decided '
                    'by the verified checker).')
